@@ -75,6 +75,13 @@ ASSUME IsUtf8(<<237, 159, 191>>) /\ IsUtf8(<<244, 143, 191, 191>>) /\ IsUtf8(<<0
 ASSUME ~IsUtf8(<<192, 128>>) /\ ~IsUtf8(<<193, 191>>) /\ ~IsUtf8(<<237, 160, 128>>) /\ ~IsUtf8(<<244, 144, 128, 128>>) /\ ~IsUtf8(<<245, 128, 128, 128>>)
 ASSUME ~IsUtf8(<<128>>) /\ ~IsUtf8(<<195>>) /\ ~IsUtf8(<<224, 159, 128>>) /\ ~IsUtf8(<<240, 143, 128, 128>>) /\ ~IsUtf8(<<226, 130>>) /\ ~IsUtf8(<<97, 255>>)
 ASSUME UntilZero(<<97, 0, 98, 0>>) = <<97>> /\ UntilZero(<<0, 0, 0, 0>>) = <<>> /\ UntilZero(<<97, 98, 99, 100>>) = <<97, 98, 99, 100>>
+\* the operators restated in Lemmas.tla (proved for all naturals with TLAPS) are the ones used by the wire model
+L == INSTANCE Lemmas
+ASSUME \A n \in 0..3000 : L!LPad4(n) = Pad4(n)
+ASSUME \A t \in {4 * i : i \in 1..300} \cup {65536, 262140, 262144} :
+          LET h == Header(FALSE, 0, 200, t) IN L!LenField(t) % 65536 = U16At(h, 3) /\ (t <= 262144 => L!HdrLen(U16At(h, 3)) = t)
+ASSUME \A i \in {0} \cup 2..257 : L!ChunkLen(i) = Len(EncChunk([ssrc |-> <<0, 1>>, items |-> IF i = 0 THEN <<>> ELSE << [type |-> 1, prefix |-> <<>>, value |-> Zeros(i - 2)] >>]))
+ASSUME \A d \in 0..40 : L!RpsiFill(d) = Len(EncRpsi([f |-> "rpsi", pt |-> 0, data |-> Zeros(d), bits |-> 0])) - (2 + d)
 ASSUME PrintT("WireTest: all vectors hold")
 
 VARIABLE x
